@@ -94,8 +94,17 @@ def r2_validated_value(report, repo):
               'receives the stored (transformed) value')
   f = repo.func(ME, 'Measurement.validate')
   n = 0
+  # names ranging over the validators (comprehension / loop targets)
+  vnames = set()
+  for x in ast.walk(f.node):
+    if isinstance(x, ast.comprehension) and isinstance(x.target, ast.Name) and \
+        dotted(x.iter) == 'self.validators':
+      vnames.add(x.target.id)
+    elif isinstance(x, ast.For) and isinstance(x.target, ast.Name) and \
+        dotted(x.iter) == 'self.validators':
+      vnames.add(x.target.id)
   for c in core.calls_in(f.node):
-    is_v = isinstance(c.func, ast.Name) and c.func.id in ('v', 'validator')
+    is_v = isinstance(c.func, ast.Name) and c.func.id in vnames
     is_m = last_attr(c) == 'is_marginal'
     if not (is_v or is_m):
       continue
@@ -308,8 +317,8 @@ def r4_rejections(report, repo):
   av = repo.func(ME, 'Collection._assert_valid_key')
   gv = lib.cfg(av)
   ok = any(n.kind == 'test' and isinstance(n.ast, ast.Compare) and isinstance(
-      n.ast.ops[0], ast.NotIn) and n.succ('T') is not None and isinstance(
-          n.succ('T').ast, ast.Raise) for n in gv.nodes)
+      n.ast.ops[0], ast.NotIn) and lib.branch_must_raise(gv, n, 'T')
+           for n in gv.nodes)
   report.check(ok, rule, av.qualname, 'raises', av.node,
                '_assert_valid_key raises when the name is not declared')
   d = repo.func(ME, 'DimensionedMeasuredValue.__setitem__')
@@ -337,7 +346,7 @@ def r4_rejections(report, repo):
                  'value_dict / cache can be written with a wrong number of '
                  'coordinates')
   gt = [n for n in gd.nodes if n.kind == 'test' and len_guard(n, 'F', None)]
-  ok = bool(gt) and all(isinstance(n.succ('T').ast, ast.Raise) for n in gt)
+  ok = bool(gt) and all(lib.branch_must_raise(gd, n, 'T') for n in gt)
   report.check(ok, rule, d.qualname, 'raises', d.node,
                'wrong coordinate count raises InvalidDimensionsError')
   # the count is taken of the caller's coordinates, not of a rebound /
@@ -491,11 +500,15 @@ def r6_conditional_validators(report, repo):
   ws = lib.nodes_with_call(g, attr='with_validator')
   report.expect_instances(rule, len(ws), 1, 'with_validator calls')
   for n, c in ws:
+    # the loop variable ranging over the conditional validators
+    cvl = [p for p in core.parents(c) if isinstance(p, ast.For) and
+           (dotted(p.iter) or '').endswith('conditional_validators')]
+    cv = dotted(cvl[0].target) if cvl else 'cv'
     ok = g.dominated_by_edge(
         n, lambda s, l, d: s.kind == 'test' and l == 'T' and
         last_attr(s.ast) == 'has_diagnosis_result' and isinstance(
-            s.ast, ast.Call) and dotted(s.ast.args[0]) == 'cv.result')
-    report.check(ok and dotted(c.args[0]) == 'cv.validator', rule, f.qualname,
+            s.ast, ast.Call) and dotted(s.ast.args[0]) == cv + '.result')
+    report.check(ok and dotted(c.args[0]) == cv + '.validator', rule, f.qualname,
                  'conditional', c,
                  'cv.validator attached only when its diagnosis result exists',
                  'a conditional validator is attached without (or with the '
